@@ -11,9 +11,17 @@ import CV.Mos
 namespace CV.GenFlat
 open CV
 
+/-- the subscript of an array element: a literal, or the register variable X or Y (stage 4) -/
+inductive Ix where
+  | k (n : Nat)
+  | x
+  | y
+  deriving Repr, DecidableEq, Inhabited
+
 inductive Atom where
   | const (n : Byte)
   | var (x : String)
+  | el (t : String) (i : Ix)          -- element of a global `unsigned char` array
   deriving Repr, DecidableEq, Inhabited
 
 inductive BOp where | add | sub | band | bor | bxor
@@ -31,7 +39,7 @@ inductive FStmt where
 def target : FStmt → String
   | .asg v _ | .bin v _ _ _ | .opasg v _ _ | .inc v | .dec v => v
 
-def Atom.isConst : Atom → Bool | .const _ => true | .var _ => false
+def Atom.isConst : Atom → Bool | .const _ => true | _ => false
 
 /-- the declared fragment: a binary operation has at least one variable operand (two constants
     are folded by the generator, which is C10's subject) -/
@@ -41,13 +49,27 @@ def InFragment : FStmt → Bool
 
 abbrev Layout := String → Word
 
+/-- address of an element. Indexed addressing is modelled without the zero-page wrap-around of `zp,X`:
+    for a subscript inside the array (C's rule) and an array that does not straddle $FF/$100 the two agree
+    (`CV.C01.indexed_zero_page_no_wrap`) -/
+def elAddr (L : Layout) (x y : Byte) (t : String) : Ix → Word
+  | .k n => L t + BitVec.ofNat 16 n
+  | .x => L t + x.zeroExtend 16
+  | .y => L t + y.zeroExtend 16
+
 def opd (L : Layout) : Atom → Opd
   | .const n => .imm n
   | .var x => .mem (L x)
+  | .el t (.k n) => .mem (L t + BitVec.ofNat 16 n)
+  | .el t .x => .memX (L t) false
+  | .el t .y => .memY (L t) false
 
 def text : Atom → String
   | .const n => "#" ++ toString n.toNat
   | .var x => x
+  | .el t (.k n) => if n == 0 then t else t ++ "+" ++ toString n
+  | .el t .x => t ++ ",X"
+  | .el t .y => t ++ ",Y"
 
 def BOp.commutes : BOp → Bool | .sub => false | _ => true
 
@@ -60,7 +82,7 @@ def ordered (op : BOp) (a b : Atom) : Atom × Atom :=
     operation for it (`+ 0`, `- 0`, `| 0`, `^ 0`, `& 255`) — only the carry set-up stays -/
 def isIdentity (op : BOp) : Atom → Bool
   | .const n => (match op with | .band => n == 255 | _ => n == 0)
-  | .var _ => false
+  | _ => false
 
 def carryOf : BOp → List Mn
   | .add => [.CLC] | .sub => [.SEC] | _ => []
@@ -93,9 +115,10 @@ def execSeq (s : Cpu) : List (Mn × Opd) → Option Cpu
 
 /-! ### what the source prescribes (8-bit wrap-around), directly on memory -/
 
-def val (L : Layout) (m : Mem) : Atom → Byte
+def val (L : Layout) (m : Mem) (x y : Byte) : Atom → Byte
   | .const n => n
-  | .var x => m.read (L x)
+  | .var v => m.read (L v)
+  | .el t i => m.read (elAddr L x y t i)
 
 def BOp.apply : BOp → Byte → Byte → Byte
   | .add, a, b => a + b
@@ -104,15 +127,15 @@ def BOp.apply : BOp → Byte → Byte → Byte
   | .bor, a, b => a ||| b
   | .bxor, a, b => a ^^^ b
 
-def spec (L : Layout) (m : Mem) : FStmt → Mem
-  | .asg v a => m.write (L v) (val L m a)
-  | .bin v op a b => m.write (L v) (op.apply (val L m a) (val L m b))
-  | .opasg v op a => m.write (L v) (op.apply (m.read (L v)) (val L m a))
+def spec (L : Layout) (m : Mem) (x y : Byte) : FStmt → Mem
+  | .asg v a => m.write (L v) (val L m x y a)
+  | .bin v op a b => m.write (L v) (op.apply (val L m x y a) (val L m x y b))
+  | .opasg v op a => m.write (L v) (op.apply (m.read (L v)) (val L m x y a))
   | .inc v => m.write (L v) (m.read (L v) + 1)
   | .dec v => m.write (L v) (m.read (L v) - 1)
 
-def specBlock (L : Layout) : Mem → List FStmt → Mem
+def specBlock (L : Layout) (x y : Byte) : Mem → List FStmt → Mem
   | m, [] => m
-  | m, s :: r => specBlock L (spec L m s) r
+  | m, s :: r => specBlock L x y (spec L m x y s) r
 
 end CV.GenFlat
